@@ -332,6 +332,41 @@ Lemma chain_from_empty_KInv cfg genesis_addr bs l :
   apply_chain cfg genesis_addr ledger0 bs = Ok l -> KInv l.
 Proof. intros H. exact (KInv_apply_chain cfg genesis_addr bs ledger0 l KInv0 H). Qed.
 
+Lemma chain_ids_distinct cfg genesis_addr bs l :
+  apply_chain cfg genesis_addr ledger0 bs = Ok l -> NoDup (map fst (dlgs l)).
+Proof. intros H. destruct (chain_from_empty_KInv cfg genesis_addr bs l H) as (_ & _ & Hnd). exact Hnd. Qed.
+
+Lemma chain_lottery_counts_indices_by_id cfg genesis_addr bs l pre k d post :
+  apply_chain cfg genesis_addr ledger0 bs = Ok l ->
+  SInv l -> 0 < staked l -> dlgs l = pre ++ (k, d) :: post ->
+  count_below (elects l (d_id d)) (staked l) + ind (is_last_funded d post) = tot d + ind (is_first pre).
+Proof.
+  intros H HI Hpos Eds.
+  exact (lottery_counts_indices_by_id l pre k d post HI Hpos (chain_ids_distinct cfg genesis_addr bs l H) Eds).
+Qed.
+
+Lemma chain_lottery_share_by_id cfg genesis_addr bs l pre k d post m :
+  apply_chain cfg genesis_addr ledger0 bs = Ok l ->
+  SInv l -> 0 < staked l -> dlgs l = pre ++ (k, d) :: post ->
+  let c := count_below (elects l (d_id d)) m in
+  c * staked l <= (tot d + 1) * m + (tot d + 1) * staked l /\
+  tot d * m <= (c + tot d) * staked l + m.
+Proof.
+  intros H HI Hpos Eds.
+  exact (lottery_share_of_values_by_id l pre k d post m HI Hpos (chain_ids_distinct cfg genesis_addr bs l H) Eds).
+Qed.
+
+(* the two writes of the delegate table *)
+Lemma put_dlg_ids_distinct l d :
+  dsorted (dlgs l) -> NoDup (map fst (dlgs l)) ->
+  dsorted (dlgs (put_dlg l d)) /\ NoDup (map fst (dlgs (put_dlg l d))).
+Proof. intros Hs Hn. split; [apply dins_sorted; exact Hs|apply dins_nodup; assumption]. Qed.
+
+Lemma del_dlg_ids_distinct l id :
+  dsorted (dlgs l) -> NoDup (map fst (dlgs l)) ->
+  dsorted (dlgs (del_dlg l id)) /\ NoDup (map fst (dlgs (del_dlg l id))).
+Proof. intros Hs Hn. split; [apply ndel_sorted; exact Hs|exact (nodup_ndel (dlgs l) id Hn)]. Qed.
+
 (* ---------------------------------------------------------------- the decoded variants *)
 Section Decoded.
 Variable txid_of key_id addr_id name_id : list N -> N.
